@@ -28,11 +28,11 @@ RULE = (
     "array coming back as float) is not judged here - C05 judges kinds. Persistence of a definition is judged against a pinned list of names."
 )
 TOLERANCES = {"recomputed_rel": 1e-9}
-FLOORS = {"quick": {"law.roundtrip": 12, "law.load-twice": 12, "law.idempotent": 6, "law.roundtrip-later-node": 8, "nodes.compared": 3000,
+FLOORS = {"quick": {"law.roundtrip-labelled-state-point": 5, "law.roundtrip-labelled-state-point/layout-differs-from-plain-node": 3, "law.roundtrip": 12, "law.load-twice": 12, "law.idempotent": 6, "law.roundtrip-later-node": 8, "nodes.compared": 3000,
                     "law.roundtrip/thrz": 1, "history.third-core-with-edge-assemblies": 2, "loaded-tree.parent-links": 10000, "loaded-tree.core-lookups": 1500,
                     "persistence.definitions-pinned": 3000, "workload.nodefault-column-fully-assigned": 12,
                     "classify.recomputed-judged-against-original": 2500},
-          "thorough": {"law.roundtrip": 150, "law.load-twice": 150, "law.idempotent": 60, "law.roundtrip-later-node": 80, "nodes.compared": 60000,
+          "thorough": {"law.roundtrip-labelled-state-point": 60, "law.roundtrip-labelled-state-point/layout-differs-from-plain-node": 40, "law.roundtrip": 150, "law.load-twice": 150, "law.idempotent": 60, "law.roundtrip-later-node": 80, "nodes.compared": 60000,
                        "law.roundtrip/thrz": 4, "history.third-core-with-edge-assemblies": 8, "loaded-tree.parent-links": 100000, "loaded-tree.core-lookups": 15000,
                        "persistence.definitions-pinned": 5000, "workload.nodefault-column-fully-assigned": 150,
                        "classify.recomputed-judged-against-original": 25000}}
@@ -715,6 +715,39 @@ def roundtrip(rec, rng, r, cs, bp, w, kind):
             rec.hit("law.load-twice")
             for k, m in obs.diff(o1, o2)[:5]:
                 rec.violation("load-twice-differs/" + k, m, w)
+            if rng.random() < .5:
+                # a labelled state point ("snapshot request") of the same cycle and node, written after the layout changed: two
+                # assemblies exchanged, a block rotated, a temperature edit - same numbers of objects of each type. The labelled
+                # group and the plain group are two snapshots: each loads back as the state that was written under its name.
+                lab = rng.choice(["afterShuffle", "snap", "EOL-x1"])
+                did = []
+                try:
+                    A_ = list(r.core)
+                    if len(A_) >= 2 and rng.random() < .8:
+                        a1, a2 = rng.sample(A_, 2)
+                        l1, l2 = a1.spatialLocator, a2.spatialLocator
+                        a1.moveTo(l2)
+                        a2.moveTo(l1)
+                        did.append("swap")
+                    if rng.random() < .5:
+                        b_ = rng.choice(r.core.getBlocks())
+                        b_.p.power = rng.uniform(1, 100)
+                        did.append("param")
+                except Exception as e:
+                    rec.crash("pre-state-point-op", e, dict(w, did=did))
+                obs.obs(r)
+                r.sort()
+                oS = obs.obs(r)
+                ctxS = Ctx(r, oS)
+                db.writeToDB(r, statePointName=lab)
+                rS = db.load(cyc, node, cs=cs, bp=bp, statePointName=lab)
+                loaded_tree_monitors(rec, rS, w, "load of the labelled state point")
+                rec.hit("law.roundtrip-labelled-state-point")
+                if "swap" in did:
+                    rec.hit("law.roundtrip-labelled-state-point/layout-differs-from-plain-node")
+                compare(rec, oS, obs.obs(rS), ctxS, "roundtrip/", dict(w, did=did, which="state point %r of the same cycle and node" % lab), limit=200)
+                rP = db.load(cyc, node, cs=cs, bp=bp)
+                compare(rec, o0b, obs.obs(rP), ctx, "roundtrip/", dict(w, did=did, which="plain node, after state point %r was written beside it" % lab), limit=200)
             if rng.random() < .7:
                 # a later time node of the SAME in-memory reactor, after changes that touch grids: conversion to full core,
                 # pitch change, block height (axial grid bounds) and a little more history
